@@ -589,3 +589,724 @@ func (s *fdSide) note(n fdNote) {
 	}
 	s.notes = append(s.notes, n)
 }
+
+// ---- part 2 (engine side): lookups in a memo table ------------------------------------------------
+//
+// For a table decided to be a memo table of a pure function (rules_t8c10_memo.go), what a function
+// computes is what it computes on a miss: `v, ok := T.Load(k)` reads ok = false (v is then unused),
+// and `v, loaded := T.LoadOrStore(k, x)` reads v = x — asserted to x's own type, x.  The two result
+// variables must be defined by that statement and written nowhere else; otherwise the statements are
+// walked as they stand.
+
+func fdMemoCall(e ast.Expr, info *types.Info, memo map[types.Object]bool) (method string, call *ast.CallExpr) {
+	c, ok := fdUnparen(e).(*ast.CallExpr)
+	if !ok {
+		return "", nil
+	}
+	sel, ok := fdUnparen(c.Fun).(*ast.SelectorExpr)
+	if !ok {
+		return "", nil
+	}
+	id, ok := fdUnparen(sel.X).(*ast.Ident)
+	if !ok || !memo[info.Uses[id]] {
+		return "", nil
+	}
+	return sel.Sel.Name, c
+}
+
+func fdMemoReads(s *fdSide) {
+	if len(s.memo) == 0 {
+		return
+	}
+	info := s.pkg.TypesInfo
+	s.falseObjs, s.memoVals = map[types.Object]bool{}, map[types.Object]ast.Expr{}
+	for _, fd := range s.funcs {
+		if fd.Body == nil {
+			continue
+		}
+		written := map[types.Object]int{}
+		ast.Inspect(fd.Body, func(n ast.Node) bool {
+			switch x := n.(type) {
+			case *ast.AssignStmt:
+				for _, l := range x.Lhs {
+					if id, ok := l.(*ast.Ident); ok {
+						o := info.Defs[id]
+						if o == nil {
+							o = info.Uses[id]
+						}
+						written[o]++
+					}
+				}
+			case *ast.IncDecStmt:
+				if id, ok := x.X.(*ast.Ident); ok {
+					written[info.Uses[id]]++
+				}
+			case *ast.UnaryExpr:
+				if id, ok := fdUnparen(x.X).(*ast.Ident); ok && x.Op == token.AND {
+					written[info.Uses[id]] += 2
+				}
+			case *ast.RangeStmt:
+				for _, e := range []ast.Expr{x.Key, x.Value} {
+					if id, ok := e.(*ast.Ident); ok {
+						o := info.Defs[id]
+						if o == nil {
+							o = info.Uses[id]
+						}
+						written[o]++
+					}
+				}
+			}
+			return true
+		})
+		ast.Inspect(fd.Body, func(n ast.Node) bool {
+			a, ok := n.(*ast.AssignStmt)
+			if !ok || len(a.Rhs) != 1 || len(a.Lhs) != 2 {
+				return true
+			}
+			m, call := fdMemoCall(a.Rhs[0], info, s.memo)
+			obj := func(e ast.Expr) types.Object {
+				id, ok := e.(*ast.Ident)
+				if !ok || id.Name == "_" {
+					return nil
+				}
+				o := info.Defs[id]
+				if o == nil {
+					o = info.Uses[id]
+				}
+				if written[o] != 1 {
+					return nil
+				}
+				return o
+			}
+			switch {
+			case m == "Load" && len(call.Args) == 1:
+				if o := obj(a.Lhs[1]); o != nil {
+					s.falseObjs[o] = true
+				}
+			case m == "LoadOrStore" && len(call.Args) == 2:
+				if o := obj(a.Lhs[0]); o != nil {
+					s.memoVals[o] = call.Args[1]
+				}
+			}
+			return true
+		})
+	}
+}
+
+// memoValOf: e is `v.(T)` with v the result of a LoadOrStore on a memo table and T the type of the
+// value offered: the value offered.
+func (c *fdCtx) memoValOf(e *ast.TypeAssertExpr) ast.Expr {
+	id, ok := fdUnparen(e.X).(*ast.Ident)
+	if !ok || len(c.s.memoVals) == 0 {
+		return nil
+	}
+	v, ok := c.s.memoVals[c.obj(id)]
+	if !ok {
+		return nil
+	}
+	info := c.s.pkg.TypesInfo
+	tv, ok1 := info.Types[v]
+	tt, ok2 := info.Types[e.Type]
+	if !ok1 || !ok2 || tv.Type == nil || tt.Type == nil || !types.Identical(tv.Type, tt.Type) {
+		return nil
+	}
+	return v
+}
+
+// ---- part 2 (engine side): a slice filled by tabulation ------------------------------------------------
+//
+// `S := make([]T, N)` followed by a loop over all indices of S whose body does nothing but
+// `S[i] = E(i)` (and `S[i].f = E'(i)`, and definitions of locals used in these) builds the table of
+// the function i ↦ E(i) on 0 … N-1: afterwards len(S) is N and S[j] is E(j).  When
+//   - N and every operand of E are values that do not change from the fill on — constants, the loop
+//     counter, locals of the loop body, parameters that are never assigned and locals that are
+//     defined once, neither address-taken nor captured;
+//   - E calls nothing but pure functions of the package (decided on the SSA, rules_t8c10_memo.go),
+//     methods of reflect.Type / reflect.StructField / reflect.StructTag, conversions, len and cap;
+//   - nothing else in the function writes S or an element of S (under any name it goes by), takes its
+//     address or appends to it, and S is handed to no call other than a memo table's LoadOrStore /
+//     Store (which never writes through it: (read-only) of rules_t8c10_memo.go);
+// the table is read as the function it tabulates: the fill is passed over, `range S` (under any name:
+// a variable all of whose assignments hand on S, the value a memo table returns for the key it was
+// stored under) is the counting loop to N, `S[j]` is E(j) and len(S) is N.  That is what upstream's
+// loop computes element by element; where a condition fails everything is walked as it stands.
+
+type fdTab struct {
+	s     types.Object
+	n     ast.Expr
+	idx   types.Object
+	elem  ast.Expr
+	over  []fdTabField
+	stmts [2]ast.Stmt // the make statement and the fill loop
+}
+
+type fdTabField struct {
+	field *types.Var
+	val   ast.Expr
+}
+
+type fdTabs struct {
+	done bool
+	by   map[types.Object]*fdTab
+	skip map[ast.Stmt]bool
+	// resolution of names to tables
+	memo map[types.Object]*fdTab
+	busy map[types.Object]bool
+}
+
+func (w *fdWalker) writesOf() map[types.Object]int {
+	info := w.s.pkg.TypesInfo
+	n := map[types.Object]int{}
+	obj := func(e ast.Expr) types.Object {
+		id, ok := fdUnparen(e).(*ast.Ident)
+		if !ok {
+			return nil
+		}
+		if o := info.Defs[id]; o != nil {
+			return o
+		}
+		return info.Uses[id]
+	}
+	ast.Inspect(w.fd.Body, func(x ast.Node) bool {
+		switch x := x.(type) {
+		case *ast.AssignStmt:
+			for _, l := range x.Lhs {
+				if o := obj(l); o != nil {
+					n[o]++
+				}
+			}
+		case *ast.IncDecStmt:
+			if o := obj(x.X); o != nil {
+				n[o]++
+			}
+		case *ast.RangeStmt:
+			for _, e := range []ast.Expr{x.Key, x.Value} {
+				if e != nil {
+					if o := obj(e); o != nil {
+						n[o]++
+					}
+				}
+			}
+		case *ast.ValueSpec:
+			for _, id := range x.Names {
+				if o := info.Defs[id]; o != nil {
+					n[o]++
+				}
+			}
+		}
+		return true
+	})
+	return n
+}
+
+// tabPure: evaluating e has no effect and yields the same value whenever it is evaluated from the
+// fill on (see above).  free: the variables that may vary (the loop counter, locals of the loop body).
+func (w *fdWalker) tabPure(e ast.Expr, free map[types.Object]bool, writes map[types.Object]int, depth int) bool {
+	info := w.s.pkg.TypesInfo
+	if depth > 14 {
+		return false
+	}
+	if tv, ok := info.Types[e]; ok && (tv.Value != nil || tv.IsType()) {
+		return true
+	}
+	switch e := e.(type) {
+	case *ast.ParenExpr:
+		return w.tabPure(e.X, free, writes, depth+1)
+	case *ast.BasicLit:
+		return true
+	case *ast.Ident:
+		o := info.Uses[e]
+		if _, isNil := o.(*types.Nil); isNil {
+			return true
+		}
+		v, ok := o.(*types.Var)
+		if !ok || v.IsField() || v.Pkg() == nil {
+			return false
+		}
+		if free[v] {
+			return true
+		}
+		if v.Parent() == v.Pkg().Scope() {
+			return false
+		}
+		return writes[v] <= 1 && !w.noFacts[v] && !fdWrittenIn(w.fd.Body, info).addr[v]
+	case *ast.UnaryExpr:
+		switch e.Op {
+		case token.SUB, token.ADD, token.XOR, token.NOT:
+			return w.tabPure(e.X, free, writes, depth+1)
+		}
+		return false
+	case *ast.BinaryExpr:
+		switch e.Op {
+		case token.QUO, token.REM, token.SHL, token.SHR:
+			return false
+		}
+		return w.tabPure(e.X, free, writes, depth+1) && w.tabPure(e.Y, free, writes, depth+1)
+	case *ast.SelectorExpr:
+		if sl := info.Selections[e]; sl != nil {
+			return sl.Kind() == types.FieldVal && !sl.Indirect() && w.tabPure(e.X, free, writes, depth+1)
+		}
+		return false
+	case *ast.CallExpr:
+		if e.Ellipsis.IsValid() {
+			return false
+		}
+		for _, a := range e.Args {
+			if !w.tabPure(a, free, writes, depth+1) {
+				return false
+			}
+		}
+		fun := fdUnparen(e.Fun)
+		if tv, ok := info.Types[fun]; ok && tv.IsType() {
+			return len(e.Args) == 1
+		}
+		switch f := fun.(type) {
+		case *ast.Ident:
+			switch o := info.Uses[f].(type) {
+			case *types.Builtin:
+				return o.Name() == "len" || o.Name() == "cap"
+			case *types.Func:
+				return w.s.pureFuncs[o]
+			}
+		case *ast.SelectorExpr:
+			fn, ok := info.Uses[f.Sel].(*types.Func)
+			if !ok {
+				return false
+			}
+			sl := info.Selections[f]
+			if sl == nil {
+				return w.s.pureFuncs[fn] // (a qualified function of another package is not in the set)
+			}
+			if sl.Kind() != types.MethodVal || !w.tabPure(f.X, free, writes, depth+1) {
+				return false
+			}
+			rt := sl.Recv()
+			if p, ok := rt.(*types.Pointer); ok {
+				rt = p.Elem()
+			}
+			if n, ok := rt.(*types.Named); ok && n.Obj().Pkg() != nil && n.Obj().Pkg().Path() == "reflect" {
+				switch n.Obj().Name() {
+				case "Type", "StructField", "StructTag":
+					return true
+				}
+			}
+			return w.s.pureFuncs[fn]
+		}
+	}
+	return false
+}
+
+func (w *fdWalker) objOf(e ast.Expr) types.Object {
+	id, ok := fdUnparen(e).(*ast.Ident)
+	if !ok {
+		return nil
+	}
+	info := w.s.pkg.TypesInfo
+	if o := info.Defs[id]; o != nil {
+		return o
+	}
+	return info.Uses[id]
+}
+
+// findTabs looks for tabulated slices in the function (once per walker).
+func (w *fdWalker) findTabs() *fdTabs {
+	if w.tabs != nil {
+		return w.tabs
+	}
+	t := &fdTabs{by: map[types.Object]*fdTab{}, skip: map[ast.Stmt]bool{}, memo: map[types.Object]*fdTab{}, busy: map[types.Object]bool{}}
+	w.tabs = t
+	if w.fd == nil || w.fd.Body == nil {
+		return t
+	}
+	info := w.s.pkg.TypesInfo
+	writes := w.writesOf()
+	fdEachList(w.fd.Body, func(list []ast.Stmt) {
+		for k := 0; k+1 < len(list); k++ {
+			a, ok := list[k].(*ast.AssignStmt)
+			if !ok || a.Tok != token.DEFINE || len(a.Lhs) != 1 || len(a.Rhs) != 1 {
+				continue
+			}
+			S := w.objOf(a.Lhs[0])
+			call, ok := fdUnparen(a.Rhs[0]).(*ast.CallExpr)
+			if S == nil || !ok || len(call.Args) != 2 || w.noFacts[S] {
+				continue
+			}
+			if id, ok := fdUnparen(call.Fun).(*ast.Ident); !ok || id.Name != "make" {
+				continue
+			} else if _, isB := info.Uses[id].(*types.Builtin); !isB {
+				continue
+			}
+			if _, isSlice := S.Type().Underlying().(*types.Slice); !isSlice {
+				continue
+			}
+			n := call.Args[1]
+			if !w.tabPure(n, nil, writes, 0) {
+				continue
+			}
+			// the fill loop: over all indices of S
+			var idx types.Object
+			var body []ast.Stmt
+			switch lp := list[k+1].(type) {
+			case *ast.RangeStmt:
+				if lp.Tok != token.DEFINE || lp.Value != nil || lp.Key == nil {
+					continue
+				}
+				c := w.ctx()
+				if w.objOf(lp.X) != S && c.expr(lp.X) != c.expr(n) {
+					continue
+				}
+				idx, body = w.objOf(lp.Key), lp.Body.List
+			case *ast.ForStmt:
+				init, ok1 := lp.Init.(*ast.AssignStmt)
+				cond, ok2 := fdUnparen(lp.Cond).(*ast.BinaryExpr)
+				post, ok3 := lp.Post.(*ast.IncDecStmt)
+				if !ok1 || !ok2 || !ok3 || init.Tok != token.DEFINE || len(init.Lhs) != 1 || len(init.Rhs) != 1 || cond.Op != token.LSS || post.Tok != token.INC {
+					continue
+				}
+				idx = w.objOf(init.Lhs[0])
+				c := w.ctx()
+				if !c.isZeroConst(init.Rhs[0]) || w.objOf(cond.X) != idx || w.objOf(post.X) != idx {
+					continue
+				}
+				bound := c.expr(cond.Y)
+				isLen := false
+				if lc, ok := fdUnparen(cond.Y).(*ast.CallExpr); ok && len(lc.Args) == 1 {
+					if id, ok := fdUnparen(lc.Fun).(*ast.Ident); ok && id.Name == "len" && w.objOf(lc.Args[0]) == S {
+						isLen = true
+					}
+				}
+				if !isLen && bound != c.expr(n) {
+					continue
+				}
+				body = lp.Body.List
+			default:
+				continue
+			}
+			if idx == nil || w.noFacts[idx] {
+				continue
+			}
+			tab := &fdTab{s: S, n: n, idx: idx, stmts: [2]ast.Stmt{list[k], list[k+1]}}
+			free := map[types.Object]bool{idx: true}
+			ok = true
+			for _, st := range body {
+				as, isA := st.(*ast.AssignStmt)
+				if !isA || len(as.Lhs) != 1 || len(as.Rhs) != 1 || !w.tabPure(as.Rhs[0], free, writes, 0) {
+					ok = false
+					break
+				}
+				if as.Tok == token.DEFINE {
+					o := w.objOf(as.Lhs[0])
+					if o == nil || writes[o] != 1 || w.noFacts[o] {
+						ok = false
+						break
+					}
+					free[o] = true
+					continue
+				}
+				if as.Tok != token.ASSIGN {
+					ok = false
+					break
+				}
+				l := fdUnparen(as.Lhs[0])
+				var fld *types.Var
+				if sel, isSel := l.(*ast.SelectorExpr); isSel {
+					f, _ := info.Uses[sel.Sel].(*types.Var)
+					if f == nil || !f.IsField() {
+						ok = false
+						break
+					}
+					fld, l = f, fdUnparen(sel.X)
+				}
+				ix, isIx := l.(*ast.IndexExpr)
+				if !isIx || w.objOf(ix.X) != S || w.objOf(ix.Index) != idx {
+					ok = false
+					break
+				}
+				switch {
+				case fld != nil && tab.elem != nil:
+					tab.over = append(tab.over, fdTabField{fld, as.Rhs[0]})
+				case fld == nil && tab.elem == nil && len(tab.over) == 0:
+					tab.elem = as.Rhs[0]
+				default:
+					ok = false
+				}
+			}
+			if !ok || tab.elem == nil || writes[idx] != 1 {
+				continue
+			}
+			t.by[S] = tab
+		}
+	})
+	if len(t.by) == 0 {
+		return t
+	}
+	// nothing else writes the table or hands it on
+	inFill := func(p token.Pos, tab *fdTab) bool {
+		return tab.stmts[0].Pos() <= p && p < tab.stmts[0].End() || tab.stmts[1].Pos() <= p && p < tab.stmts[1].End()
+	}
+	kill := func(o types.Object) {
+		if tab := w.tabOfObj(o); tab != nil {
+			delete(t.by, tab.s)
+			t.memo = map[types.Object]*fdTab{}
+		}
+	}
+	var base func(e ast.Expr) (types.Object, bool)
+	base = func(e ast.Expr) (types.Object, bool) { // the variable an lvalue belongs to; deref: through an index / pointer
+		switch e := fdUnparen(e).(type) {
+		case *ast.Ident:
+			return w.objOf(e), false
+		case *ast.SelectorExpr:
+			return base(e.X)
+		case *ast.IndexExpr:
+			o, _ := base(e.X)
+			return o, true
+		case *ast.StarExpr:
+			o, _ := base(e.X)
+			return o, true
+		case *ast.SliceExpr:
+			o, _ := base(e.X)
+			return o, true
+		}
+		return nil, false
+	}
+	for changed := true; changed; {
+		n0 := len(t.by)
+		ast.Inspect(w.fd.Body, func(x ast.Node) bool {
+			switch x := x.(type) {
+			case *ast.AssignStmt:
+				for _, l := range x.Lhs {
+					o, deref := base(l)
+					if o == nil {
+						continue
+					}
+					if tab := w.tabOfObj(o); tab != nil && !inFill(x.Pos(), tab) && (deref || o == tab.s) {
+						kill(o)
+					}
+				}
+			case *ast.IncDecStmt:
+				if o, deref := base(x.X); o != nil && deref {
+					kill(o)
+				}
+			case *ast.UnaryExpr:
+				if x.Op == token.AND {
+					if o, _ := base(x.X); o != nil {
+						kill(o)
+					}
+				}
+			case *ast.CallExpr:
+				if m, _ := fdMemoCall(x, info, w.s.memo); m == "LoadOrStore" || m == "Store" {
+					return true
+				}
+				if id, ok := fdUnparen(x.Fun).(*ast.Ident); ok {
+					if b, isB := info.Uses[id].(*types.Builtin); isB && (b.Name() == "len" || b.Name() == "cap") {
+						return true
+					}
+				}
+				for _, a := range x.Args {
+					if o := w.objOf(a); o != nil {
+						kill(o)
+					}
+					if sl, ok := fdUnparen(a).(*ast.SliceExpr); ok {
+						if o := w.objOf(sl.X); o != nil {
+							kill(o)
+						}
+					}
+				}
+			case *ast.FuncLit:
+				ast.Inspect(x, func(y ast.Node) bool {
+					if id, ok := y.(*ast.Ident); ok {
+						if o := info.Uses[id]; o != nil {
+							kill(o)
+						}
+					}
+					return true
+				})
+				return false
+			case *ast.ReturnStmt:
+				for _, e := range x.Results {
+					if o := w.objOf(e); o != nil {
+						kill(o)
+					}
+				}
+			}
+			return true
+		})
+		changed = len(t.by) != n0
+	}
+	for _, tab := range t.by {
+		t.skip[tab.stmts[0]], t.skip[tab.stmts[1]] = true, true
+	}
+	return t
+}
+
+// tabOfObj: the table the variable stands for — the tabulated slice itself, or a variable all of whose
+// assignments hand on one and the same table (directly, through a type assertion, through the value a
+// memo table returns on a miss — what was offered — or on a hit for a key under which that table is
+// stored in the same function).
+func (w *fdWalker) tabOfObj(o types.Object) *fdTab {
+	t := w.findTabs()
+	if o == nil || len(t.by) == 0 {
+		return nil
+	}
+	if tab, ok := t.by[o]; ok {
+		return tab
+	}
+	if tab, ok := t.memo[o]; ok {
+		return tab
+	}
+	if t.busy[o] {
+		return nil
+	}
+	v, ok := o.(*types.Var)
+	if !ok || v.IsField() || v.Pkg() == nil || v.Parent() == v.Pkg().Scope() || w.noFacts[v] {
+		return nil
+	}
+	if _, isSlice := v.Type().Underlying().(*types.Slice); !isSlice {
+		if _, isIface := v.Type().Underlying().(*types.Interface); !isIface {
+			return nil
+		}
+	}
+	t.busy[o] = true
+	defer delete(t.busy, o)
+	info := w.s.pkg.TypesInfo
+	var res *fdTab
+	n, bad := 0, false
+	take := func(tab *fdTab) {
+		n++
+		if tab == nil || (res != nil && res != tab) {
+			bad = true
+		}
+		res = tab
+	}
+	if mv, ok := w.s.memoVals[o]; ok {
+		take(w.tabOf(mv))
+	} else {
+		ast.Inspect(w.fd.Body, func(x ast.Node) bool {
+			switch x := x.(type) {
+			case *ast.AssignStmt:
+				for i, l := range x.Lhs {
+					if w.objOf(l) != o {
+						continue
+					}
+					if len(x.Rhs) == len(x.Lhs) {
+						if x.Tok != token.ASSIGN && x.Tok != token.DEFINE {
+							bad = true
+						} else if zero := (&fdCtx{s: w.s}).isZeroConst(x.Rhs[i]); !zero {
+							take(w.tabOf(x.Rhs[i]))
+						}
+						continue
+					}
+					// v, ok := T.Load(k): the entry under k
+					if m, call := fdMemoCall(x.Rhs[0], info, w.s.memo); m == "Load" && i == 0 && len(call.Args) == 1 {
+						take(w.tabStoredUnder(call))
+						continue
+					}
+					bad = true
+				}
+			case *ast.RangeStmt:
+				for _, e := range []ast.Expr{x.Key, x.Value} {
+					if e != nil && w.objOf(e) == o {
+						bad = true
+					}
+				}
+			case *ast.IncDecStmt:
+				if w.objOf(x.X) == o {
+					bad = true
+				}
+			case *ast.ValueSpec:
+				for i, id := range x.Names {
+					if info.Defs[id] == o && len(x.Values) == len(x.Names) {
+						take(w.tabOf(x.Values[i]))
+					}
+				}
+			}
+			return true
+		})
+	}
+	if bad || n == 0 {
+		res = nil
+	}
+	t.memo[o] = res
+	return res
+}
+
+// tabStoredUnder: load is T.Load(k); the function stores a table in T under the same key (the only
+// writing call on T in the function).
+func (w *fdWalker) tabStoredUnder(load *ast.CallExpr) *fdTab {
+	info := w.s.pkg.TypesInfo
+	tObj := w.objOf(fdUnparen(load.Fun).(*ast.SelectorExpr).X)
+	c := w.ctx()
+	key := c.expr(load.Args[0])
+	var res *fdTab
+	n := 0
+	ast.Inspect(w.fd.Body, func(x ast.Node) bool {
+		call, ok := x.(*ast.CallExpr)
+		if !ok {
+			return true
+		}
+		if m, _ := fdMemoCall(call, info, w.s.memo); (m == "LoadOrStore" || m == "Store") && len(call.Args) == 2 &&
+			w.objOf(fdUnparen(call.Fun).(*ast.SelectorExpr).X) == tObj {
+			n++
+			if w.ctx().expr(call.Args[0]) == key {
+				res = w.tabOf(call.Args[1])
+			} else {
+				res = nil
+				n++
+			}
+		}
+		return true
+	})
+	if n != 1 {
+		return nil
+	}
+	return res
+}
+
+// tabOf: the table an expression stands for (a name, or a type assertion of one).
+func (w *fdWalker) tabOf(e ast.Expr) *fdTab {
+	if w == nil || w.fd == nil {
+		return nil
+	}
+	switch x := fdUnparen(e).(type) {
+	case *ast.Ident:
+		return w.tabOfObj(w.objOf(x))
+	case *ast.TypeAssertExpr:
+		if x.Type != nil {
+			return w.tabOf(x.X)
+		}
+	}
+	return nil
+}
+
+// rangeTabAsFor: `for i := range S` over a tabulated slice is the counting loop to its length.
+func (w *fdWalker) rangeTabAsFor(s *ast.RangeStmt) *ast.ForStmt {
+	if s.Value != nil || s.Key == nil {
+		return nil
+	}
+	tab := w.tabOf(s.X)
+	if tab == nil || w.tabs.skip[s] {
+		return nil
+	}
+	return w.rangeIntAsFor(&ast.RangeStmt{For: s.For, Key: s.Key, Tok: s.Tok, TokPos: s.TokPos, Range: s.Range, X: tab.n, Body: s.Body})
+}
+
+// tabElem renders S[j] for a tabulated S.
+func (c *fdCtx) tabElem(e *ast.IndexExpr) (string, bool) {
+	if c.w == nil || c.bind != nil {
+		return "", false
+	}
+	tab := c.w.tabOf(e.X)
+	if tab == nil {
+		return "", false
+	}
+	c.bind = map[types.Object]ast.Expr{tab.idx: e.Index}
+	s := c.expr(tab.elem)
+	for _, f := range tab.over {
+		if c.s.extraFields[f.field] {
+			continue
+		}
+		s += "⟨" + f.field.Name() + ": " + c.expr(f.val) + "⟩"
+	}
+	c.bind = nil
+	return s, true
+}
